@@ -228,6 +228,7 @@ def check_myokit_export(ctx: Ctx, rule: str):
         ctx.undecided(rule, ukey, "the set_unit calls of gotran_to_myokit are not found in what it does", h.where())
     else:
         bad_u = []
+        other_atom: list = []
         for u_ in units:
             a = u_[3][0]
             srcs = [x for x in _av.find_all(a, "attr") if x[2] == "unit_str"]
@@ -238,7 +239,16 @@ def check_myokit_export(ctx: Ctx, rule: str):
             want_u = _av.mk_if(("cmp", "is", U, _av.NONE), _av.NONE, ("mcall", U, "replace", (_av.C("**"), _av.C("^")), ()))
             if a != want_u:
                 bad_u.append(a)
+                continue
+            # ... and it is the unit of the atom the variable was declared for: add_variable(<atom>.name).set_unit(<atom>.unit_str)
+            recv = u_[1]
+            if recv[0] == "mcall" and recv[2] == "add_variable" and recv[3] and recv[3][0][0] == "attr" and recv[3][0][2] == "name" and recv[3][0][1] != U[1]:
+                other_atom.append((recv[3][0], U))
         ctx.check(not bad_u, rule, ukey, "unit = the atom's unit text with ** written as ^, None when the atom has none", f"gotran_to_myokit sets a variable's unit to `{_av.show(bad_u[0])[:100] if bad_u else ''}`, not to the atom's own unit text (None when it has none): units are not preserved by the conversion back to Myokit", h.where())
+        if other_atom:
+            ctx.fail(rule, h.key("units::own-atom"), f"gotran_to_myokit declares the variable `{_av.show(other_atom[0][0])}` but gives it the unit `{_av.show(other_atom[0][1])}` of another atom (a state's unit is not its derivative's): units are not preserved by the conversion back to Myokit", h.where())
+        elif not bad_u:
+            ctx.ok(rule, h.key("units::own-atom"), "each variable gets the unit of the atom it is declared for", h.where())
     pvals = any(s_[3][0][0] == "attr" and s_[3][0][2] == "value" and s_[3][0][1][0] == "bv" and ("add_variable(" + _av.show(s_[3][0][1]) + ".name)") in _av.show(s_[1]) for s_ in sets)
     proms = [v for v in log if v[0] == "mcall" and v[2] == "promote" and len(v[3]) == 1]
     sv = any(p_[3][0] == ("attr", ("attr", p_[1][2][1][1], "state"), "value") for p_ in proms if p_[1][0] == "sub" and p_[1][2][0] == "attr" and p_[1][2][1][0] == "attr" and p_[1][2][1][2] == "state")
@@ -264,6 +274,20 @@ def check_myokit_import(ctx: Ctx, rule: str):
         ctx.undecided(rule, f.key("substitution-chains"), f"myokit_to_gotran could not be evaluated ({e})", f.where())
         return
     log = [v for _f, _n, v in A.call_log[n0:]]
+
+    # the caller's model is not altered: the protocol is embedded into a copy (add_embedded_protocol rewrites the model it
+    # is given, and refuses to embed a second time - a second import of the same object with another protocol would keep
+    # the first one's timing)
+    emb = [v for v in log if v[0] == "call" and v[1].split(".")[-1] == "add_embedded_protocol" and v[2]]
+    for v in emb:
+        tgt = v[2][0]
+        kp = f.key("protocol-embedded-into-a-copy")
+        if tgt[0] == "sym" and tgt[1] in f.params:
+            ctx.fail(rule, kp, f"myokit_to_gotran embeds the protocol into its own argument `{tgt[1]}` (add_embedded_protocol rewrites the model in place): importing the same Myokit model again with another protocol silently keeps the first protocol", f.where())
+        elif tgt[0] == "mcall" and tgt[2] in ("clone", "copy", "__copy__", "__deepcopy__") or (tgt[0] == "call" and tgt[1].split(".")[-1] in ("copy", "deepcopy")):
+            ctx.ok(rule, kp, "add_embedded_protocol(model.clone(), protocol)", f.where())
+        else:
+            ctx.undecided(rule, kp, f"the model handed to add_embedded_protocol (`{_av.show(tgt)[:60]}`) is not recognised as a copy", f.where())
 
     def ctor(name):
         return [v for v in log if v[0] == "call" and v[1].split(".")[-1] == name]
